@@ -234,8 +234,8 @@ impl Scenario for C17 {
         }
         p.callers = callers;
         if faults && r.chance(2, 3) {
-            p.conn_fault = (*r.pick(&["peer_close", "peer_reset", "write_error"])).to_string();
-            p.conn_fault_at = if p.conn_fault == "write_error" { r.below(600) } else { r.below(6) };
+            p.conn_fault = (*r.pick(&["peer_close", "peer_reset", "write_error", "local_close"])).to_string();
+            p.conn_fault_at = if p.conn_fault == "write_error" { r.below(600) } else if p.conn_fault == "local_close" { r.below(300) } else { r.below(6) };
             p.conn_fault_delay_ms = r.below(50);
         }
         if p.calls_before_start == 0 && r.chance(1, 4) {
@@ -580,6 +580,22 @@ async fn scenario(w: &Arc<World>, p: &Plan) {
                 w.ev(format!("connection mutex held for {}ms from {}ms", dur, World::now_ms()));
                 tokio::time::sleep(Duration::from_millis(dur)).await;
                 drop(guard);
+            }
+        }));
+    }
+    if p.conn_fault == "local_close" {
+        // the application closes the listed connection itself (through the handle Node::connections() gives out);
+        // the entry stays listed, calls made from then on fail, and none of them leaves anything behind
+        let (node, w, sh, at) = (node.clone(), w.clone(), sh.clone(), p.conn_fault_at);
+        tasks.push(tokio::spawn(async move {
+            tokio::time::sleep(Duration::from_millis(at)).await;
+            let conn = node.connections().get(PEER_NAME).map(|e| Arc::clone(e.value()));
+            if let Some(conn) = conn {
+                let mut g = conn.lock().await;
+                sh.lock().unwrap().conn_fault_at_ms = Some(World::now_ms());
+                let _ = g.close().await;
+                w.stat("fault.connection_closed_locally");
+                w.ev(format!("listed connection closed by the application at {}ms", World::now_ms()));
             }
         }));
     }
